@@ -23,7 +23,10 @@ import (
 const yieldPkgSrc = `// Package zzsimyield is added to the scratch copy by the C18 simulator.
 package zzsimyield
 
-import "time"
+import (
+	"sync"
+	"time"
+)
 
 // Now replaces time.Now() in the instrumented library: the C18 world cannot
 // run inside a synctest bubble (see DESIGN.md), so its clock is frozen here
@@ -43,9 +46,62 @@ var Hook func(site int)
 //
 //go:norace
 func Y(site int) {
+	if quiet != 0 {
+		return
+	}
 	if h := Hook; h != nil {
 		h(site)
 	}
+}
+
+// quiet > 0 while a Pool runs its New function: those statements are not
+// yield points (whether New runs depends on what the pool holds, and the
+// number of statements a call executes must not).
+var quiet int32
+
+//go:norace
+func setQuiet(d int32) { quiet += d }
+
+// Pool replaces sync.Pool in the instrumented library. What a sync.Pool
+// returns is decided by the garbage collector (victim cache), by the P the
+// goroutine runs on and, in a race build, by a random draw in Put — three
+// sources of nondeterminism the simulator does not own. This one is a plain
+// LIFO behind a mutex: deterministic, never drops an item, and hands the most
+// recently returned item to the next caller whichever task that is, which is
+// the worst case for code that keeps using an item after Put (a legal
+// behaviour of sync.Pool, made certain). The mutex gives the race detector the
+// same Put -> Get ordering the real pool announces.
+type Pool struct {
+	New   func() any
+	mu    sync.Mutex
+	items []any
+}
+
+func (p *Pool) Get() any {
+	p.mu.Lock()
+	if n := len(p.items); n > 0 {
+		x := p.items[n-1]
+		p.items[n-1] = nil
+		p.items = p.items[:n-1]
+		p.mu.Unlock()
+		return x
+	}
+	p.mu.Unlock()
+	if p.New == nil {
+		return nil
+	}
+	setQuiet(1)
+	defer setQuiet(-1)
+	return p.New()
+}
+
+func (p *Pool) Put(x any) {
+	if x == nil {
+		return
+	}
+	p.mu.Lock()
+	p.items = append(p.items, x)
+	p.mu.Unlock()
 }
 
 // LockHook is told when the running task has taken (+1) or released (-1) a
@@ -293,6 +349,20 @@ func instrumentFile(path, modPath string, firstSite int) (int, []string, string,
 		out = bytes.ReplaceAll(out, []byte("time.Since("), []byte("zzsimyield.Since("))
 		out = bytes.ReplaceAll(out, []byte("time.Until("), []byte("zzsimyield.Until("))
 		out = append(out, "\nvar _ = time.Unix // keeps the import in use\n"...)
+	}
+	importsSync := false
+	for _, im := range file.Imports {
+		if im.Path.Value == `"sync"` && im.Name == nil {
+			importsSync = true
+		}
+	}
+	if importsSync && bytes.Contains(out, []byte("sync.Pool")) {
+		if !importDone {
+			// no statement in this file: the import has not been emitted yet
+			out = append(append(append([]byte{}, out[:pkgEnd]...), fmt.Sprintf("; import zzsimyield %q", modPath+"/zzsimyield")...), out[pkgEnd:]...)
+		}
+		out = bytes.ReplaceAll(out, []byte("sync.Pool"), []byte("zzsimyield.Pool"))
+		out = append(out, "\nvar _ sync.Locker // keeps the import in use\n"...)
 	}
 	if err := os.WriteFile(path, out, 0o644); err != nil {
 		return 0, nil, "", err
